@@ -1,5 +1,6 @@
 import RtenVerif.Driver.Util
 import RtenVerif.Model.Poly
+import RtenVerif.Model.PolyRect
 
 /-!
 Line protocol for C35.
@@ -79,11 +80,64 @@ def handleHull (w : String) : String :=
     s!"{showPts h} min={b01 isMin}"
   | none => "bad-request"
 
+/-! `rect <pts> <corners>`: `min_area_rect` on an integer point set whose hull edges all have
+integer length; `<corners>` are the four corners of the rect the code returned, in units of
+1/1000.  The model builds every candidate rect exactly over `Rat` (initial bounding rect and one
+per hull edge, as coded) and answers `match` iff the shipped corners agree (within 0.05) with the
+corners of a candidate of minimal area — the code's own selection among *equal* areas depends on
+`f32` rounding — else `nomatch` with the exact selection. -/
+
+open RtenVerif.PolyRect in
+def rectCorners (r : RRect Rat) : List (Rat × Rat) :=
+  let hx := r.ux * (r.h / 2); let hy := r.uy * (r.h / 2)
+  let wx := r.uy * (r.w / 2); let wy := -r.ux * (r.w / 2)
+  [(r.cx - hx - wx, r.cy - hy - wy), (r.cx - hx + wx, r.cy - hy + wy),
+   (r.cx + hx + wx, r.cy + hy + wy), (r.cx + hx - wx, r.cy + hy - wy)]
+
+def rabs (a : Rat) : Rat := if a < 0 then -a else a
+
+def near (a b : Rat × Rat) : Bool :=
+  decide (rabs (a.1 - b.1) ≤ (1 : Rat) / 20) && decide (rabs (a.2 - b.2) ≤ (1 : Rat) / 20)
+
+def sameCorners (xs ys : List (Rat × Rat)) : Bool :=
+  xs.all (fun a => ys.any (near a)) && ys.all (fun b => xs.any (near b))
+
+def showRat (a : Rat) : String := if a.den == 1 then toString a.num else s!"{a.num}/{a.den}"
+
+open RtenVerif.PolyRect in
+def handleRect (ptsW cornersW : String) : String :=
+  match parsePts ptsW, parsePts cornersW with
+  | some pts, some cs =>
+    match hullKey pts with
+    | [] => "none"
+    | p0 :: ps =>
+      let toR := fun (p : Pt) => ((p.1 : Rat), (p.2 : Rat))
+      let hull := p0 :: ps
+      let nexts := ps ++ [p0]
+      let lensN := (hull.zip nexts).map fun e => Nat.sqrt (sqDist e.1 e.2).toNat
+      let exact := (hull.zip nexts).zip lensN |>.all fun x => (x.2 * x.2 : Nat) == (sqDist x.1.1 x.1.2).toNat
+      if !exact then "skip" else
+      let rp0 := toR p0
+      let rps := ps.map toR
+      let lens : List Rat := lensN.map fun n => ((n : Nat) : Rat)
+      let cands : List (RRect Rat) :=
+        if ps.isEmpty then [bboxRect rp0 rps]
+        else bboxRect rp0 rps ::
+          (((hull.zip nexts).zip lens).map fun x => edgeRect (toR x.1.1) (toR x.1.2) x.2 rp0 rps)
+      let minA := cands.foldl (fun m r => if area r < m then area r else m) (area (bboxRect rp0 rps))
+      let impl := cs.map fun c => ((c.1 : Rat) / 1000, (c.2 : Rat) / 1000)
+      if cands.any fun r => area r == minA && sameCorners (rectCorners r) impl then "match"
+      else
+        let r := minAreaRect rp0 rps lens
+        s!"nomatch exact: c={showRat r.cx},{showRat r.cy} up={showRat r.ux},{showRat r.uy} w={showRat r.w} h={showRat r.h}"
+  | _, _ => "bad-request"
+
 def handle (line : String) : String :=
   if line.startsWith "#" then "skip" else
   match words line with
   | ["dp", closed, eps, pts, tab] => handleDp closed eps pts tab
   | ["dp", closed, eps, pts, tab, _] => handleDp closed eps pts tab
+  | ["rect", pts, cs] => handleRect pts cs
   | ["hull", es] => handleHull es
   | ["hull", es, _] => handleHull es
   | _ => "bad-request"
